@@ -919,6 +919,85 @@ def _define_fun_sort_matrix():
 CORNER_MALFORMED += _define_fun_sort_matrix()
 
 
+# two scripts read lazily, command by command, in turns, each by a parser of
+# its own (get_command_generator): each must read as if it were alone
+INTERLEAVED = [
+    ('(declare-fun x () Int)(define-fun f ((a Int)) Int (+ a 1))'
+     '(define-fun k () Int 7)(assert (= (f 3) k))(assert (> (f x) k))',
+     '(declare-fun x () Int)(define-fun f ((a Int)) Int (* a 5))'
+     '(define-fun k () Int 9)(assert (= (f 2) k))(assert (< (f x) k))'),
+    ('(declare-fun p () Bool)(define-fun g ((a Bool)) Bool (not a))'
+     '(assert (g p))(push 1)(define-fun h () Bool (g (g p)))(assert h)(pop 1)'
+     '(assert (g (g p)))',
+     '(declare-fun p () Bool)(define-fun g ((a Bool)) Bool (and a p))'
+     '(assert (g p))(define-fun h () Bool false)(assert (or h (g true)))'),
+    ('(define-sort W () (_ BitVec 4))(declare-fun b () W)'
+     '(define-fun m ((v W)) W (bvadd v #x1))(assert (= (m b) #x3))',
+     '(define-sort W () (_ BitVec 8))(declare-fun c () W)'
+     '(define-fun m ((v W)) W (bvnot v))(assert (= (m c) #x03))'),
+    ('(declare-fun x () Int)(assert (let ((y (+ x 1))) (> y 2)))'
+     '(assert (! (> x 0) :named nx))(assert (> x 5))',
+     '(declare-fun z () Int)(assert (let ((y (* z 3))) (< y 2)))'
+     '(assert (! (< z 0) :named nx))(assert (< z 5))'),
+]
+
+
+def interleaved_cases(rep, ck):
+    from pysmt.smtlib.parser import SmtLibParser
+    from pysmt.smtlib.script import SmtLibScript
+    for i, (ta, tb) in enumerate(INTERLEAVED):
+        for order in (0, 1):
+            if (2 * i + order) % rep.nshards != rep.shard:
+                continue
+            texts = (ta, tb) if order == 0 else (tb, ta)
+            env = common.fresh_env()
+            other = common_env_twin()
+            rep.case(key=('interleaved', i, order))
+            rep.count('interleaved_script_pairs')
+            try:
+                with warnings.catch_warnings():
+                    warnings.simplefilter('ignore')
+                    gens = [SmtLibParser(env).get_command_generator(
+                        StringIO(texts[0])),
+                        SmtLibParser(other).get_command_generator(
+                            StringIO(texts[1]))]
+                    got = [[], []]
+                    live = [0, 1]
+                    while live:
+                        for w in list(live):
+                            try:
+                                got[w].append(next(gens[w]))
+                            except StopIteration:
+                                live.remove(w)
+            except Exception as e:
+                rep.violation('%s/rejected/interleaved-parsers' % PROP,
+                              'two scripts read in turns by two parsers: %r\n'
+                              '%s\n%s' % (e, texts[0], texts[1]),
+                              {'texts': list(texts)})
+                continue
+            for w in (0, 1):
+                rd, merr = read_m3(texts[w])
+                if merr is not None:
+                    rep.notes.append('interleaved text outside: %s' % merr)
+                    continue
+                sc = SmtLibScript()
+                for c in got[w]:
+                    sc.add_command(c)
+                try:
+                    ck.compare_scripts(sc, rd)
+                except Mismatch as e:
+                    rep.violation(
+                        '%s/misread:%s/interleaved-parsers' % (PROP, e.kind),
+                        'read in turns with another script by another '
+                        'parser object: %s\n%s' % (e.what, texts[w]),
+                        {'texts': list(texts), 'which': w})
+
+
+def common_env_twin():
+    from pysmt.environment import Environment
+    return Environment()
+
+
 def text_to_tree(text):
     """Token tree of a text via the independent tokenizer."""
     def conv(x):
@@ -1053,6 +1132,7 @@ def run(rep):
                 label = classify(tree)
             rep.violation('%s/%s/%s' % (PROP, kind, label),
                           detail + '\n' + text, {'text': text})
+    interleaved_cases(rep, ck)
     for i, text in enumerate(SAME_NAME_SCRIPTS):
         if i % rep.nshards != rep.shard:
             continue
